@@ -192,7 +192,7 @@ func checkC04(tier string) int {
 		}
 	}
 	// (3) fates
-	fates := []string{"timeout", "touch1", "touch2", "touchcap", "touch3", "req0", "req200", "req700", "dpub200", "dpub700"}
+	fates := []string{"timeout", "touch1", "touch2", "touchcap", "touch3", "req0", "req0touch", "req200", "req700", "dpub200", "dpub700"}
 	for _, f := range fates {
 		jobs = append(jobs, caseJob{"timing", mustJSON(nsqd.TimingSpec{Fates: []string{f}})})
 		jobs = append(jobs, caseJob{"timing", mustJSON(nsqd.TimingSpec{Fates: []string{f}, MsgTO: 1500})})
